@@ -256,8 +256,9 @@ type C17Project struct {
 var c17OwnedHand = []string{"hand/mine.go", "hand/ext.go", "hand/level.go", "hand/core.go"}
 
 // C17Render renders the project of a row (nothing is written).
-func C17Render(root, importBase string, row C17Row, seed int64, nfiles int, quirks C17Quirks) *C17Project {
-	b := c17BuildSchema(row, seed, importBase, quirks)
+func C17Render(root, importBase string, row C17Row, seed int64, nfiles int) *C17Project {
+	quirks := row.Quirks()
+	b := c17BuildSchema(row, seed, importBase)
 	p := &C17Project{Root: root, Base: importBase, Row: row, Seed: seed, NFiles: nfiles, Quirks: quirks, Files: map[string]string{}}
 	for k, v := range b.SDLFiles(nfiles) {
 		p.Files[k] = v
@@ -308,7 +309,7 @@ func (p *C17Project) Write() error {
 // into root (entry point for other drivers; for models = "bound" the first-pass
 // configuration is written).
 func C17RenderProject(root, importBase string, row C17Row, seed int64) error {
-	return C17Render(root, importBase, row, seed, 2+int(seed%2), nil).Write()
+	return C17Render(root, importBase, row, seed, 2+int(seed%2)).Write()
 }
 
 // C17Outcome is the projection compared with the outcome the specification
